@@ -26,7 +26,7 @@ ASSUMPTIONS = ["non-interference = serialisability in the reference interpreter 
                "all orders reach one state)", "with allow_inapplicable_actions only 'no refusal' is demanded"]
 REAL_VS_STUB = {"real": ["multi_agent.common.apply_actions, MultiAgentTrajectoryExporter.create_multi_agent_triplet/"
                          "parse_plan/export, Operator, parsers"], "stub": ["__hash__ seam"]}
-TECHNIQUE = "deterministic simulation: seeded member orders / nop placements / injected inapplicable member vs every serial order in a reference interpreter"
+TECHNIQUE = "deterministic simulation: seeded member orders / nop placements / injected inapplicable member / plan text layouts / growing world / >1000-step joint plans vs every serial order in a reference interpreter; strict re-reading of exported files"
 DESIGN_REF = "DESIGN.md §5 C16"
 LEVEL_TEXT = ("seeded exploration: each generated joint action is presented in every member order and nop placement and "
               "compared with the reference's sequential application; refusal guard checked with an injected inapplicable "
